@@ -382,7 +382,7 @@ class TypedNode(Node):
         return self.add_child(
             child,
             kind=kind,
-            before=self.first_child(),
+            before=self.first_child(kind=ANY_KIND),
             deep=deep,
             data_id=data_id,
             node_id=node_id,
